@@ -261,22 +261,22 @@ Proof.
   apply IH. assumption.
 Qed.
 
-Theorem workflow_rejects_unknown_branch_target : forall w o ord,
+Theorem workflow_rejects_unknown_branch_target : forall w o ord sord,
   existsb (bad_branch w) (w_branches w) = true ->
-  is_err (snd (w_compile fixed w o ord)).
+  is_err (snd (w_compile fixed w o ord sord)).
 Proof.
-  intros w o ord H. unfold w_compile. destruct (g_err (w_g w)); [simpl; auto|].
+  intros w o ord sord H. unfold w_compile. destruct (g_err (w_g w)); [simpl; auto|].
   pose proof (run_branches_bad _ _ H) as B.
   destruct (run_branches fixed w (w_branches w)) as [w1 out]; simpl in B; subst out. simpl. auto.
 Qed.
 
 (* whatever graph.compile rejects, Workflow.compile rejects too (it ends in graph.compile),
    and it never accepts anything with the build error set *)
-Lemma w_compile_outcome : forall w o ord,
-  is_err (snd (w_compile fixed w o ord)) \/
-  exists w2, snd (w_compile fixed w o ord) = snd (g_compile fixed (w_g w2) o).
+Lemma w_compile_outcome : forall w o ord sord,
+  is_err (snd (w_compile fixed w o ord sord)) \/
+  exists w2, snd (w_compile fixed w o ord sord) = snd (g_compile fixed (w_g w2) o).
 Proof.
-  intros w o ord. unfold w_compile. destruct (g_err (w_g w)); [left; simpl; auto|].
+  intros w o ord sord. unfold w_compile. destruct (g_err (w_g w)); [left; simpl; auto|].
   destruct (run_branches fixed w (w_branches w)) as [w1 [out|]] eqn:B.
   - left. simpl.
     assert (K : forall bs w0 w1 out, run_branches fixed w0 bs = (w1, Some out) -> is_err out).
@@ -284,7 +284,8 @@ Proof.
       dif; [intros H; inv H; auto|]. destruct (g_add_branch (w_g w0) from ends true). apply IH. }
     eapply K; eassumption.
   - destruct (run_nodes w1 _) as [w2 [er|]]; [left; simpl; auto|].
-    right. exists w2. destruct (g_compile fixed (w_g w2) o); reflexivity.
+    destruct (run_statics fixed w2 _) as [w3 [er|]]; [left; simpl; auto|].
+    right. exists w3. destruct (g_compile fixed (w_g w3) o); reflexivity.
 Qed.
 
 (* ================================================================== E. never a panic *)
@@ -334,7 +335,8 @@ Proof.
   - destruct (alist_get _ _); simpl; congruence.
   - congruence.
   - destruct (g_add_edge _ _ _ _ _ _); simpl; congruence.
-  - destruct (w_compile_outcome w o ord) as [[e E]|[w2 E]]; rewrite E; [congruence|].
+  - destruct (alist_get _ _); simpl; congruence.
+  - destruct (w_compile_outcome w o ord sord) as [[e E]|[w2 E]]; rewrite E; [congruence|].
     apply g_compile_no_panic.
 Qed.
 
@@ -342,7 +344,7 @@ Qed.
 (* F-C20a: Workflow.AddBranch to a node that was never added: Compile panics *)
 Definition wf_branch_to_unknown : list wcall :=
   [ WAddNode "a" NLambda false; WAddInput "a" START WNormal []; WAddInput END_ "a" WNormal [];
-    WAddBranch "a" ["x"; END_]; WCompile opt_default [] ].
+    WAddBranch "a" ["x"; END_]; WCompile opt_default [] [] ].
 
 Lemma wf_branch_unknown_v0 : snd (run_calls (wstep v0) (w_init false) wf_branch_to_unknown)
   = [OOk; OOk; OOk; OOk; OPanic].
@@ -355,7 +357,7 @@ Proof. vm_compute. reflexivity. Qed.
 (* F-C20b: Compile twice with a field mapping: the first runner's view changes *)
 Definition wf_compile_twice : list wcall :=
   [ WAddNode "a" NLambda false; WAddInput "a" START WNormal ["A"]; WAddInput END_ "a" WNormal [];
-    WCompile opt_default [] ].
+    WCompile opt_default [] [] ].
 
 Definition first_runner (v : ver) : option (wstate * runner) :=
   let '(w1, os) := run_calls (wstep v) (w_init false) wf_compile_twice in
@@ -368,7 +370,7 @@ Lemma wf_compile_twice_v0 :
   match first_runner v0 with
   | Some (w1, r) =>
       rv_prenode (runner_view (w_g w1) r) = ["a"] /\
-      rv_prenode (runner_view (w_g (fst (wstep v0 w1 (WCompile opt_default [])))) r) = ["a"; "a"]
+      rv_prenode (runner_view (w_g (fst (wstep v0 w1 (WCompile opt_default [] [])))) r) = ["a"; "a"]
   | None => False
   end.
 Proof. vm_compute. split; reflexivity. Qed.
@@ -377,7 +379,7 @@ Lemma wf_compile_twice_fixed :
   match first_runner fixed with
   | Some (w1, r) =>
       rv_prenode (runner_view (w_g w1) r) = ["a"] /\
-      rv_prenode (runner_view (w_g (fst (wstep fixed w1 (WCompile opt_default [])))) r) = ["a"]
+      rv_prenode (runner_view (w_g (fst (wstep fixed w1 (WCompile opt_default [] [])))) r) = ["a"]
   | None => False
   end.
 Proof. vm_compute. split; reflexivity. Qed.
@@ -419,7 +421,7 @@ Proof.
   apply (H (final (wstep v0) (w_init false)
               [WAddNode "a" NLambda false; WAddInput "a" START WNormal []; WAddInput END_ "a" WNormal [];
                WAddBranch "a" ["x"; END_]])
-           (WCompile opt_default [])).
+           (WCompile opt_default [] [])).
   vm_compute. reflexivity.
 Qed.
 
@@ -433,17 +435,17 @@ Proof.
 Qed.
 
 Lemma runner_unaffected_v0_false :
-  ~ (forall w o ord w1 r cs, wstep v0 w (WCompile o ord) = (w1, OCompiled r) ->
+  ~ (forall w o ord sord w1 r cs, wstep v0 w (WCompile o ord sord) = (w1, OCompiled r) ->
       runner_view (w_g (final (wstep v0) w1 cs)) r = runner_view (w_g w1) r).
 Proof.
   intros H.
   remember (final (wstep v0) (w_init false)
               [WAddNode "a" NLambda false; WAddInput "a" START WNormal ["A"]; WAddInput END_ "a" WNormal []]) as w eqn:Ew.
   vm_compute in Ew.
-  destruct (wstep v0 w (WCompile opt_default [])) as [w1 o] eqn:E.
+  destruct (wstep v0 w (WCompile opt_default [] [])) as [w1 o] eqn:E.
   pose proof E as E'. rewrite Ew in E'. vm_compute in E'.
   destruct o as [| | |r]; try discriminate E'.
-  specialize (H _ _ _ _ _ [WCompile opt_default []] E).
+  specialize (H _ _ _ _ _ _ [WCompile opt_default [] []] E).
   inversion E'; subst w1 r; clear E'. vm_compute in H. discriminate H.
 Qed.
 
